@@ -17,15 +17,17 @@ BIN="$ROOT/fuzz/target/x86_64-unknown-linux-gnu/release"
 TOTAL=0
 SUMMARY="{\"runs_per_job\": $RUNS, \"jobs\": $JOBS, \"seed\": $SEED, \"targets\": {"
 first=1
-for T in decoders raw_proof raw_compressed; do
+for T in decoders raw_proof raw_compressed raw_verifier raw_pp raw_prover; do
   RUN="$ROOT/fuzz/corpus-run/$T"
   rm -rf "$RUN"; mkdir -p "$RUN" "$ROOT/fuzz/artifacts/$T"
   [ -d "$ROOT/corpus/$T" ] && cp "$ROOT/corpus/$T"/* "$RUN"/ 2>/dev/null
-  case "$T" in raw_proof) ML=1008;; raw_compressed) ML=2048;; *) ML=64;; esac
-  PER=$(( (JOBS + 2) / 3 ))
+  case "$T" in raw_proof) ML=1008;; raw_compressed) ML=2048;; raw_verifier) ML=2048;; raw_pp) ML=4096;; raw_prover) ML=48000;; *) ML=64;; esac
+  # the prover decoder costs milliseconds per input: a tenth of the runs
+  TR=$RUNS; [ "$T" = raw_prover ] && TR=$((RUNS / 10 + 1))
+  PER=$(( (JOBS + 2) / 3 ))   # three targets' worth of jobs at a time
   pids=()
   for j in $(seq 1 $PER); do
-    "$BIN/$T" "$RUN" -runs="$RUNS" -seed=$((SEED + j)) -len_control=0 -max_len=$ML -timeout=60 -rss_limit_mb=4096 \
+    "$BIN/$T" "$RUN" -runs="$TR" -seed=$((SEED + j)) -len_control=0 -max_len=$ML -timeout=60 -rss_limit_mb=4096 \
        -artifact_prefix="$ROOT/fuzz/artifacts/$T/" > "$ROOT/fuzz/corpus-run/$T.$j.log" 2>&1 &
     pids+=($!)
   done
